@@ -227,7 +227,7 @@ package strategy
 //@   ensures[C03] added: result <==> !old(has(s.partitions, name))
 //@   ensures[C03] new_bin: result ==> has(s.partitions, name) && s.partitions[name] == partition && partition.limit == share(s.limit, partition.percent)
 //@   ensures[C03] existing_kept: !result ==> s.partitions[name] == old(s.partitions[name]) && partition.limit == old(partition.limit)
-//@   ensures[C03] counts_unchanged: s.busy == old(s.busy) && s.limit == old(s.limit) && forall q *strategy.LookupPartition :: q.busy == old(q.busy)
+//@   ensures[C02,C03] counts_unchanged: s.busy == old(s.busy) && s.limit == old(s.limit) && forall q *strategy.LookupPartition :: q.busy == old(q.busy)
 //@   owns[C17]
 
 //@ func (*LookupPartitionStrategy).RemovePartition
@@ -235,7 +235,7 @@ package strategy
 //@   ensures[C03] found: ret1 <==> old(has(s.partitions, name))
 //@   ensures[C03] removed: !has(s.partitions, name)
 //@   ensures[C03] reports_bin: ret1 ==> ret0 == int(old(s.partitions[name]).busy)
-//@   ensures[C03] counts_unchanged: s.busy == old(s.busy) && s.limit == old(s.limit) && forall q *strategy.LookupPartition :: q.busy == old(q.busy) && q.limit == old(q.limit)
+//@   ensures[C02,C03] counts_unchanged: s.busy == old(s.busy) && s.limit == old(s.limit) && forall q *strategy.LookupPartition :: q.busy == old(q.busy) && q.limit == old(q.limit)
 //@   owns[C17]
 
 //@ func (*LookupPartitionStrategy).BusyCount
@@ -378,7 +378,7 @@ package strategy
 //@   ensures[C03] added: result <==> (forall j int :: 0 <= j && j < old(len(s.partitions)) ==> old(s.partitions[j]) != partition)
 //@   ensures[C03] appended: result ==> len(s.partitions) == old(len(s.partitions)) + 1 && s.partitions[old(len(s.partitions))] == partition && partition.limit == share(s.limit, partition.percent) && (forall j int :: 0 <= j && j < old(len(s.partitions)) ==> s.partitions[j] == old(s.partitions[j]))
 //@   ensures[C03] unchanged_if_present: !result ==> s.partitions == old(s.partitions) && partition.limit == old(partition.limit)
-//@   ensures[C03] counts_unchanged: s.busy == old(s.busy) && s.limit == old(s.limit) && forall q *strategy.PredicatePartition :: q.busy == old(q.busy)
+//@   ensures[C02,C03] counts_unchanged: s.busy == old(s.busy) && s.limit == old(s.limit) && forall q *strategy.PredicatePartition :: q.busy == old(q.busy)
 //@   owns[C17]
 
 //@ func (*PredicatePartitionStrategy).BusyCount
@@ -473,7 +473,7 @@ package strategy
 //@   maintains[C03] s
 //@   loop 1 invariant[C03] kept_are_bins: -1 <= #rangeindex && #rangeindex < len(s.partitions) && (forall j int :: 0 <= j && j < len(kept) ==> kept[j] != nil && inv(kept[j]) && kept[j].limit == share(s.limit, kept[j].percent))
 //@   loop 1 invariant[C03] unchanged: s.limit == old(s.limit) && s.busy == old(s.busy) && s.partitions == old(s.partitions) && inv(s) && (forall q *strategy.PredicatePartition :: q.busy == old(q.busy) && q.limit == old(q.limit))
-//@   ensures[C03] counts_kept: s.busy == old(s.busy) && s.limit == old(s.limit) && (forall q *strategy.PredicatePartition :: q.busy == old(q.busy) && q.limit == old(q.limit))
+//@   ensures[C02,C03] counts_kept: s.busy == old(s.busy) && s.limit == old(s.limit) && (forall q *strategy.PredicatePartition :: q.busy == old(q.busy) && q.limit == old(q.limit))
 //@   ensures[C03] result_flag: ret1 <==> len(ret0) > 0
 //@   owns[C17]
 
